@@ -475,6 +475,11 @@ add("C27", "fixed", "macro:arguments-without-commas", "{% call f 1 2 %} and {% c
 add("C21", "fixed", "missed-unknown-tag:end-of-an-end-tag", "an 'endendif' tag made the analysis infer a block tag called 'endif': 'if' was reported unclosed, 'endif' unknown, and 'endendif' itself - unknown, and closing nothing - "
     "was not reported", [{"source": "{% if a %}{% endif %}{% endendif %}", "extra": False}], "d12cd7a")
 
+add("C13", "fixed", "tablerow-structure:cols+break", "tablerow: a break in the last column of a row still opened the next row (the table ended with an empty <tr class=\"rowN\">); with cols: 0 or a "
+    "non-numeric cols every cell reported tablerowloop.row == 2 inside <tr class=\"row1\"> (R-loop had copied that stepping rule from the code: the structural monitor does not)",
+    [{"kind": "tablerow-structure", "source": "{% tablerow i in (1..2) cols: 1 %}r{{ tablerowloop.row }}c{{ tablerowloop.col }}i{{ tablerowloop.index }};{% if tablerowloop.index == 1 %}{% break %}{% endif %}{% endtablerow %}", "n": 2, "cols": 1, "stop": "break", "at": 1},
+     {"kind": "tablerow-structure", "source": "{% tablerow i in (1..1) cols: 0 %}r{{ tablerowloop.row }}c{{ tablerowloop.col }}i{{ tablerowloop.index }};{% endtablerow %}", "n": 1, "cols": 0, "stop": None, "at": None}], "d5e83ee")
+
 if __name__ == "__main__":
     # further entries are appended by tools/mkfindings.py from triaged replay files and kept in findings_extra.json
     extra_path = os.path.join(VERIF, "tools", "findings_extra.json")
